@@ -267,7 +267,7 @@ class Check:
                   assumptions=assumptions, wall_s=round(wall, 2), violations=len(unlisted),
                   known_findings_seen=[k for k, _ in listed], repo=REPO,
                   inconclusive=self.inconclusive)
-        if write_evidence and self.replay_only is None:
+        if write_evidence and self.replay_only is None and not os.environ.get('VERIF_NO_EVIDENCE'):
             os.makedirs(os.path.join(VERIF, 'evidence'), exist_ok=True)
             with open(os.path.join(VERIF, 'evidence', self.pid + '.json'), 'w') as f:
                 json.dump(ev, f, indent=1, default=str)
